@@ -617,6 +617,15 @@ func makeIntrinsics() map[string]intrinsic {
 			return nil
 		}
 		r := st.solver.Check(Not(c))
+		if r == "unknown" {
+			// an unknown assertion would make the harness inconclusive: be patient once
+			st.solver.EndCheck()
+			patient := 90000
+			if st.e.tier == "thorough" {
+				patient = 300000
+			}
+			r = st.solver.CheckPatient(Not(c), patient)
+		}
 		if r == "sat" {
 			vals := st.solver.Values(st.symvars)
 			model := map[string]string{}
